@@ -243,7 +243,7 @@ def _upper(expr, fn, consts, depth=0):
 def rule_query_radius(prog, rep):
     """A fixed-radius filter applied to the result of a neighbour query only sees pairs in adjacent cells: the radius must
     not exceed the size of the cells the query runs on."""
-    r = rep.rule("R4", "every fixed distance cutoff applied to neighbour-query results is at most the cell size in use", floor=3)
+    r = rep.rule("R4", "every fixed distance cutoff applied to neighbour-query results is at most the cell size in use", floor=2)
     consts = dict(prog.module_constants("config.py"))
     size_of = {}  # module -> smallest cell size its queries can run on
     for key, f in prog.funcs.items():
